@@ -66,5 +66,7 @@ impl QuerierWrapper {
         ensures
             r is Ok <==> query_ok::<T>(*self, request_view(*request)),
             r is Ok ==> r->Ok_0 == query_answer::<T>(*self, request_view(*request)),
+            // a contract that answers a smart query has a well-formed address
+            r is Ok ==> (request_view(*request) matches QueryView::Smart { addr, payload } ==> is_address(addr)),
     { unimplemented!() }
 }
